@@ -29,6 +29,9 @@ func targetFor(data []byte, mode string) uint64 {
 }
 
 func mineCall(ctx context.Context, data []byte, mode string, nw int) (uint64, error) {
+	if nw == -99 { // no count given
+		return New().Mine(ctx, data, targetFor(data, mode))
+	}
 	return New(nw).Mine(ctx, data, targetFor(data, mode))
 }
 
@@ -41,3 +44,6 @@ func nonceOK(data []byte, nonce uint64, mode string) bool {
 	binary.LittleEndian.PutUint64(nb[:], nonce)
 	return Score(append(append([]byte{}, data...), nb[:]...)) >= targetFor(data, mode)
 }
+
+// withAltHash: the digest function of PoW v2 is fixed
+func withAltHash(k int) func() { return func() {} }
